@@ -8,21 +8,14 @@ From SV Require Import Base.Base IR.State IR.NS IR.Ops Xform.Clone Proofs.AssocX
   Proofs.CloneMemoK Proofs.CloneFaithK Proofs.CloneStage Proofs.CloneStageP Proofs.CloneRun Proofs.CloneRemap.
 Import ListNotations RecordSetNotations.
 
-Lemma kl_of s r p c : Inv1a s -> Above s -> In c (kids s r p) -> c < next s /\ p < next s.
-Proof.
-  intros I Ab Hc. split.
-  - apply (i1_kids _ I) in Hc. destruct (Nat.lt_ge_cases c (next s)) as [H|H]; [exact H|]. rewrite (proj2 (Ab r c H)) in Hc. discriminate.
-  - destruct (Nat.lt_ge_cases p (next s)) as [H|H]; [exact H|]. rewrite (proj1 (Ab r p H)) in Hc. destruct Hc.
-Qed.
-
 Lemma defimg_stable s0 d d' s m s2 m2 :
-  DefImg s0 d d' s m -> Inv1a s -> Above s -> d' < next s -> msub m m2 -> kstable s s2 -> DefImg s0 d d' s2 m2.
+  DefImg s0 d d' s m -> (forall r p c, In c (kids s r p) -> c < next s /\ p < next s) -> d' < next s -> msub m m2 -> kstable s s2 -> DefImg s0 d d' s2 m2.
 Proof.
-  intros [A B C D F] I Ab Hd Hm Hk. pose proof Hk as [_ Hk']. constructor.
+  intros [A B C D F] KL Hd Hm Hk. pose proof Hk as [_ Hk']. constructor.
   - intros p Hp. destruct (A p Hp) as [p' [H1 [H2 H3]]]. exists p'. split; [apply Hm; exact H1|]. split; [rewrite Hk' by exact Hd; exact H2|].
-    apply (imgok_stable s0 RPins p p' s m s2 m2 H3); [apply (kl_of s RPorts d' p' I Ab H2)|exact Hm|exact Hk].
+    apply (imgok_stable s0 RPins p p' s m s2 m2 H3); [apply (KL RPorts d' p' H2)|exact Hm|exact Hk].
   - intros p Hp. destruct (B p Hp) as [p' [H1 [H2 H3]]]. exists p'. split; [apply Hm; exact H1|]. split; [rewrite Hk' by exact Hd; exact H2|].
-    apply (imgok_stable s0 RWires p p' s m s2 m2 H3); [apply (kl_of s RCables d' p' I Ab H2)|exact Hm|exact Hk].
+    apply (imgok_stable s0 RWires p p' s m s2 m2 H3); [apply (KL RCables d' p' H2)|exact Hm|exact Hk].
   - intros p Hp. destruct (C p Hp) as [p' [H1 H2]]. exists p'. split; [apply Hm; exact H1|rewrite Hk' by exact Hd; exact H2].
   - intros p' Hp'. rewrite Hk' in Hp' by exact Hd. destruct (D p' Hp') as [p [H1 H2]]. exists p. split; [apply Hm; exact H1|exact H2].
   - intros p' Hp'. rewrite Hk' in Hp' by exact Hd. destruct (F p' Hp') as [p [H1 H2]]. exists p. split; [apply Hm; exact H1|exact H2].
@@ -99,7 +92,7 @@ Section RYDef.
     split; [|split; [exact Hd'|split; [exact Hin|split; [apply (so_sub _ _ _ _ _ _ SO)|split; [apply (so_keys _ _ _ _ _ _ SO)|split; [exact Hks|split; [exact Hn|split; [exact Hpd|exact Hf]]]]]]]].
     constructor.
     - constructor; [exact RG|]. intros a b H Hk. destruct (Hentry a b H Hk) as [Hi|[-> ->]]; [|exact DI].
-      apply (defimg_stable s0 a b s m G m' (rx_di _ _ _ X a b Hi Hk) (ri_1a _ _ _ R) (ri_ab _ _ _ R)); [apply (st_rng _ _ _ ST0 a b Hi)|apply (so_sub _ _ _ _ _ _ SO)|exact Hks].
+      apply (defimg_stable s0 a b s m G m' (rx_di _ _ _ X a b Hi Hk) (ri_kl _ _ _ R)); [apply (st_rng _ _ _ ST0 a b Hi)|apply (so_sub _ _ _ _ _ _ SO)|exact Hks].
     - intros x x' H Hk. destruct (in_memo_dec m x x') as [Hi|Hi].
       + destruct (st_rng _ _ _ ST0 x x' Hi) as [_ [_ Hlt]]. destruct (so_old _ _ _ _ _ _ SO x' Hlt) as [_ [_ [_ [_ Hir]]]]. rewrite Hir.
         destruct (ry_ir _ _ _ Y x x' Hi Hk) as [H1|[e [e' [A [B C]]]]]; [left; exact H1|right; exists e, e'; split; [exact A|split; [apply (so_sub _ _ _ _ _ _ SO); exact B|exact C]]].
@@ -158,7 +151,7 @@ Proof. split; [apply memb_In|]. intro H. destruct (memb x l) eqn:E; [reflexivity
 Section Attach.
   Variables (s0 s : state) (m : memo) (r : rel) (p : id) (L : list id).
   Hypothesis Y : RY s0 s m.
-  Hypothesis Hr : r = RDefs \/ r = RLibs.
+  Hypothesis Hr : r = RDefs.
   Hypothesis Hp0 : next s0 <= p.
   Hypothesis Hpn : p < next s.
   Hypothesis Hkp : kind_of s p = Some (rel_parent r).
@@ -172,7 +165,8 @@ Section Attach.
   Proof.
     destruct (attach_fields s r p L) as [Fk [Fp [Fn [Fkd [Fr [Fd [Fi [Fw Fiw]]]]]]]]. fold t in Fk, Fp, Fn, Fkd, Fr, Fd, Fi, Fw, Fiw.
     pose proof (ry_rx _ _ _ Y) as X. pose proof (rx_ri _ _ _ X) as R. pose proof (ri_st _ _ _ R) as ST0.
-    assert (Hrc : r <> RChildren /\ r <> RPorts /\ r <> RPins /\ r <> RCables /\ r <> RWires) by (destruct Hr as [-> | ->]; repeat split; discriminate).
+    assert (Hrc : r <> RChildren /\ r <> RPorts /\ r <> RPins /\ r <> RCables /\ r <> RWires) by (rewrite Hr; repeat split; discriminate).
+    assert (HrL : r <> RLibs) by (rewrite Hr; discriminate).
     assert (Hkin : forall r0 y, (r0 <> r \/ y <> p) -> kids t r0 y = kids s r0 y).
     { intros r0 y H. rewrite Fk, kids_upd2_ns. destruct (rel_eqb r0 r) eqn:Er; cbn [andb]; [|reflexivity].
       apply rel_eqb_spec in Er. destruct (Nat.eqb_spec y p) as [->|]; [|reflexivity]. destruct H as [H|H]; contradiction. }
@@ -187,23 +181,27 @@ Section Attach.
     - (* RI *) constructor.
       + destruct ST0 as [a b c d e f g h i j k l0 n]. constructor; rewrite ?Fn, ?Fkd, ?Fiw, ?Fw, ?Fi, ?Fr; try assumption.
         intros r0 y Hy. rewrite Hkin by (right; lia). apply g. exact Hy.
-      + (* containment *) constructor.
-        * intros r0 q x. destruct (rel_eq_dec r0 r) as [->|Hne].
-          -- destruct (Nat.eq_dec q p) as [->|Hqp].
+      + (* containment *) intros r0 Hr0. split.
+        * intros q x. destruct (rel_eq_dec r0 r) as [->|Hne].
+          -- pose proof (ri_1a _ _ _ R r HrL) as [I1k _]. destruct (Nat.eq_dec q p) as [->|Hqp].
              ++ rewrite Hkp'. split; [apply Hpl|]. intro Hx. destruct (memb x L) eqn:Em; [apply memb_In; exact Em|].
                 rewrite Hpin in Hx by (right; intro H; apply memb_true_In in H; congruence).
-                apply (i1_kids _ (ri_1a _ _ _ R)) in Hx. rewrite Hpk in Hx. destruct Hx.
+                apply I1k in Hx. rewrite Hpk in Hx. destruct Hx.
              ++ rewrite Hkin by (right; exact Hqp). split.
-                ** intro Hx. assert (Hnl : ~ In x L). { intro H. destruct (HL x H) as [_ [_ [_ Hpx]]]. apply (i1_kids _ (ri_1a _ _ _ R)) in Hx. congruence. }
-                   rewrite Hpin by (right; exact Hnl). apply (i1_kids _ (ri_1a _ _ _ R)). exact Hx.
+                ** intro Hx. assert (Hnl : ~ In x L). { intro H. destruct (HL x H) as [_ [_ [_ Hpx]]]. apply I1k in Hx. congruence. }
+                   rewrite Hpin by (right; exact Hnl). apply I1k. exact Hx.
                 ** intro Hx. destruct (memb x L) eqn:Em.
                    --- apply memb_In in Em. rewrite (Hpl x Em) in Hx. injection Hx as Hx. congruence.
-                   --- rewrite Hpin in Hx by (right; intro H; apply memb_true_In in H; congruence). apply (i1_kids _ (ri_1a _ _ _ R)). exact Hx.
-          -- rewrite Hkin, Hpin by (left; exact Hne). apply (i1_kids _ (ri_1a _ _ _ R)).
-        * intros r0 q. destruct (rel_eq_dec r0 r) as [->|Hne]; [destruct (Nat.eq_dec q p) as [->|Hqp]|].
+                   --- rewrite Hpin in Hx by (right; intro H; apply memb_true_In in H; congruence). apply I1k. exact Hx.
+          -- rewrite Hkin, Hpin by (left; exact Hne). apply (proj1 (ri_1a _ _ _ R r0 Hr0)).
+        * intros q. destruct (rel_eq_dec r0 r) as [->|Hne]; [destruct (Nat.eq_dec q p) as [->|Hqp]|].
           -- rewrite Hkp'. exact HLnd.
-          -- rewrite Hkin by (right; exact Hqp). apply (i1_nodup _ (ri_1a _ _ _ R)).
-          -- rewrite Hkin by (left; exact Hne). apply (i1_nodup _ (ri_1a _ _ _ R)).
+          -- rewrite Hkin by (right; exact Hqp). apply (proj2 (ri_1a _ _ _ R r HrL)).
+          -- rewrite Hkin by (left; exact Hne). apply (proj2 (ri_1a _ _ _ R r0 Hr0)).
+      + (* members and parents are allocated *) intros r0 q x Hx. rewrite Fn. destruct (rel_eq_dec r0 r) as [->|Hne]; [destruct (Nat.eq_dec q p) as [->|Hqp]|].
+        * rewrite Hkp' in Hx. destruct (HL x Hx) as [_ [Hxn _]]. split; assumption.
+        * rewrite Hkin in Hx by (right; exact Hqp). apply (ri_kl _ _ _ R _ _ _ Hx).
+        * rewrite Hkin in Hx by (left; exact Hne). apply (ri_kl _ _ _ R _ _ _ Hx).
       + (* typing *) intros r0 q x Hx. rewrite Fkd. destruct (rel_eq_dec r0 r) as [->|Hne]; [destruct (Nat.eq_dec q p) as [->|Hqp]|].
         * rewrite Hkp' in Hx. destruct (HL x Hx) as [_ [_ [Hk _]]]. split; [exact Hk|exact Hkp].
         * rewrite Hkin in Hx by (right; exact Hqp). apply (ri_t _ _ _ R). exact Hx.
@@ -220,7 +218,7 @@ Section Attach.
       + intros x j w Hx Hw. rewrite Fi in Hw. apply (ri_nw _ _ _ R x j w Hx Hw).
       + intros d Hd. rewrite Fd. apply (ri_dr _ _ _ R d Hd).
     - intros d d' Hdd Hk. apply (defimg_inner s0 d d' s t m); [|apply (rx_di _ _ _ X d d' Hdd Hk)].
-      intros r0 y H1 H2. apply Hkin. left. destruct Hr as [-> | ->]; assumption.
+      intros r0 y H1 H2. apply Hkin. left. rewrite Hr. exact H1.
     - intros x x' H Hk. rewrite Fr. apply (ry_ir _ _ _ Y x x' H Hk).
     - intros d d' H Hk n. rewrite Fd. apply (ry_d1 _ _ _ Y d d' H Hk n).
     - intros d d' H Hk n. rewrite Fd. apply (ry_d2 _ _ _ Y d d' H Hk n).
@@ -246,7 +244,7 @@ Proof.
   split; [|repeat split; assumption].
   constructor.
   - constructor; [exact R'|]. intros d d' H Hkd0. pose proof (Hnd d d' H (or_introl Hkd0)) as Hi0.
-    apply (defimg_stable s0 d d' s m _ _ (rx_di _ _ _ X d d' Hi0 Hkd0) (ri_1a _ _ _ R) (ri_ab _ _ _ R)); [apply (st_rng _ _ _ (ri_st _ _ _ R) d d' Hi0)|exact Hsub|exact Hks].
+    apply (defimg_stable s0 d d' s m _ _ (rx_di _ _ _ X d d' Hi0 Hkd0) (ri_kl _ _ _ R)); [apply (st_rng _ _ _ (ri_st _ _ _ R) d d' Hi0)|exact Hsub|exact Hks].
   - intros a b H Hka. pose proof (Hnd a b H (or_intror Hka)) as Hi0. rewrite Hi.
     destruct (ry_ir _ _ _ Y a b Hi0 Hka) as [H1|[e [e' [A [B C]]]]]; [left; exact H1|right; exists e, e'; split; [exact A|split; [right; exact B|exact C]]].
   - intros d d' H Hkd0 n Hnn. pose proof (Hnd d d' H (or_introl Hkd0)) as Hi0. rewrite Hd in Hnn.
@@ -262,7 +260,8 @@ Lemma ry_def_rr s0 s s' m d d' :
   def_rr m s d' = (s', None) ->
   RY s0 s' m /\ kids s' = kids s /\ par s' = par s /\ next s' = next s /\ kind_of s' = kind_of s /\
   (forall y, ~ In y (kids s RChildren d') -> iref s' y = iref s y) /\
-  (forall y, In y (kids s RChildren d') -> iref s' y = remap_ref m (iref s y)).
+  (forall y, In y (kids s RChildren d') -> iref s' y = remap_ref m (iref s y)) /\
+  drefs s' = upd (drefs s) d' (dedup_keep (map (fun r => match mget m r with Some r' => r' | None => r end) (drefs s d'))).
 Proof.
   intros U0 Y Hdd Hkd Hcl E. pose proof (ry_rx _ _ _ Y) as X. pose proof (rx_ri _ _ _ X) as R. pose proof (ri_st _ _ _ R) as ST0.
   destruct (st_rng _ _ _ ST0 d d' Hdd) as [Hd0 [Hd'0 Hd'n]].
@@ -278,7 +277,7 @@ Proof.
     - rewrite H1 in Hr. apply (Hcl x e Hx Hr He).
     - rewrite C in Hr. injection Hr as <-. exfalso. apply (Hvals e0 e0' B He). }
   destruct (def_rr_spec s0 s s' m d' U0 X Hd'0 HL E) as [X' [A [B [C [D [Hdr [F G]]]]]]].
-  split; [|repeat split; assumption].
+  split; [|split; [exact A|split; [exact B|split; [exact C|split; [exact D|split; [exact F|split; [exact G|exact Hdr]]]]]]].
   constructor; [exact X'| | |].
   - intros x x' Hxx Hkx. destruct (in_dec Nat.eq_dec x' (kids s RChildren d')) as [Hin|Hout].
     + rewrite (G x' Hin). destruct (ry_ir _ _ _ Y x x' Hxx Hkx) as [H1|[e0 [e0' [P [Q S]]]]].
@@ -367,7 +366,8 @@ Theorem ry_lib s0 s m l sF mF l' :
   (forall y, In y (lib_objects s0 l) -> ~ In y (map fst m)) ->
   lib_clone1 (s, m) l = ((sF, mF, l'), None) ->
   RY s0 sF mF /\ msub m mF /\ keys_ext m mF (lib_objects s0 l) /\ In (l, l') mF /\ l' = next s /\ next s < next sF /\
-  kpframe (next s) s sF /\ (forall r, par sF r l' = None) /\ kind_of sF l' = Some KLibrary.
+  kpframe (next s) s sF /\ (forall r, par sF r l' = None) /\ kind_of sF l' = Some KLibrary /\
+  Forall2 (fun d d' => In (d, d') mF) (kids s0 RDefs l) (kids sF RDefs l').
 Proof.
   intros U0 HRD Y Hl Hkl Hnd Hfree E. unfold lib_clone1 in E.
   destruct (clone_alloc s KLibrary) as [s1 x] eqn:Ea.
@@ -408,7 +408,7 @@ Proof.
   assert (HkidsP : kids sP RDefs x = []).
   { rewrite Ak, (Hkk2 RDefs x Hx1), Hk1. apply (proj1 (ri_ab _ _ _ R0 RDefs x ltac:(lia))). }
   fold (attach sP RDefs x defs') in Hfst.
-  destruct (attach_ry s0 sP m2 RDefs x defs' YP (or_introl eq_refl) Hx0 ltac:(lia) HkxP HkidsP) as [YF [Fk [Fn [Fr [Fd Fkd]]]]].
+  destruct (attach_ry s0 sP m2 RDefs x defs' YP eq_refl Hx0 ltac:(lia) HkxP HkidsP) as [YF [Fk [Fn [Fr [Fd Fkd]]]]].
   { intros c Hc. destruct (P2 c Hc) as [A [B C]]. split; [lia|]. split; [lia|]. split; [|rewrite Ap; apply C].
     destruct (forall2_in_l _ _ _ F2 c Hc) as [d [Hd Hdc]]. rewrite Akd.
     rewrite (st_kind _ _ _ (ri_st _ _ _ (rx_ri _ _ _ (ry_rx _ _ _ Y2))) d c Hdc). apply (proj2 (Hpre d Hd)). }
@@ -426,5 +426,5 @@ Proof.
     + intro r. destruct (attach_fields sP RDefs x defs') as [_ [Fp _]]. rewrite Hfst, Fp.
       assert (Hnx : memb x defs' = false). { destruct (memb x defs') eqn:Em; [|reflexivity]. apply memb_In in Em. destruct (P2 x Em) as [A _]. lia. }
       rewrite Hnx, andb_false_r, Ap. rewrite (proj2 (Hf2 r x Hx1)), Hp1. apply (proj2 (ri_ab _ _ _ R0 r x ltac:(lia))).
-    + rewrite Fkd. exact HkxP.
+    + split; [rewrite Fkd; exact HkxP|]. rewrite Fk, upd2_same. exact F2.
 Qed.
